@@ -304,6 +304,9 @@ def check_config(glob, blocks, acc, style=0, want_detail=False):
         if mask:
             acc.count("nontrivial_cases")
             acc.nt((host, hdrs, tuple(sorted(info["applied"])), mask))
+            if len(blocks) >= 2 and (mask & 27) and len(acc.samples) < 3 and not problems:
+                acc.sample({"config_text": text, "hostname": host, "lookup": got, "feature_mask": mask,
+                            "blocks_applying(0=global section)": sorted(info["applied"])})
         if has_match:
             alt, _ = R.lookup(rb, host, ENV, passes=1, raw_host=False)
             if alt != exp:
@@ -354,11 +357,6 @@ def run_item(item, acc):
             for body in item[1]:
                 check_config((), ((H("*"), body),), acc, style)
                 check_config(body, ((H("ab"), (("user", "u1"),)),), acc, style)
-    if len(acc.samples) < 2 and fam in ("S1", "S2"):
-        first = item[2]
-        acc.sample({"family": fam, "config_text": render(item[1] if fam == "S1" else (), (first,)),
-                    "hostnames": HOSTNAMES})
-
 
 B1Q = [b for b in B1 if b[0] not in (("identityfile", "~/k1"), ("proxycommand", "nc %h %p"))]
 
